@@ -51,6 +51,8 @@ def snapshot(x):
 
 
 def as_array(X, kind):
+    if kind == 'ndarray_f':
+        return np.asfortranarray(np.array(X, dtype=float))
     if kind == 'ndarray_ro':
         A = np.ascontiguousarray(X, dtype=float)
     elif kind == 'ndarray_f_ro':
@@ -64,7 +66,7 @@ def as_array(X, kind):
 def call_strategy():
     return st.fixed_dictionaries({
         'call': st.sampled_from(CALLS), 'seed': S.SEEDS, 'n': st.integers(8, 60), 'd': st.integers(2, 4),
-        'container': st.sampled_from(['ndarray', 'ndarray_ro', 'ndarray_f_ro', 'frame', 'series', 'list']),
+        'container': st.sampled_from(['ndarray', 'ndarray_f', 'ndarray_ro', 'ndarray_f_ro', 'frame', 'series', 'list']),
         'cls': st.sampled_from(UNI), 'family': st.sampled_from(S.FAMILIES), 'vine_type': st.sampled_from(['center', 'direct', 'regular']),
         'cond': st.sampled_from(['dict', 'series']), 'dataset': st.sampled_from(['sample_univariate_normal', 'sample_bivariate_age_income', 'sample_trivariate_xyz',
                                                                                'sample_univariate_bimodal', 'sample_univariates']),
@@ -83,6 +85,8 @@ def run_twice(fn, args, what, mutable_desc, allow=()):
     after = [snapshot(a) for a in args]
     for i, (b, m) in enumerate(zip(before, after)):
         require(b == m, '%s modified its argument #%d on the second call' % (what, i), tag='input-mutated')
+    for k_, r_ in ((k1, r1), (k2, r2)):
+        require(not (k_ == 'exc' and 'read-only' in str(r_)), '%s tried to write into a read-only argument: %s' % (what, r_), tag='input-mutated')
     if k1 == 'exc' or k2 == 'exc':
         # a documented refusal (e.g. no admissible theta for this sample): both calls must refuse alike
         return '<refused %s>' % type(r1).__name__ if k1 == 'exc' else r1, '<refused %s>' % type(r2).__name__ if k2 == 'exc' else r2
@@ -160,7 +164,7 @@ def oracle_call(case):
     elif name in ('biv_fit', 'biv_query', 'select_copula'):
         fam = case['family']
         X = np.clip(sample_ref(fam, theta_from_tau(fam, 0.5), n, rs), 1e-6, 1 - 1e-6)
-        kind = cont if cont in ('ndarray', 'ndarray_ro', 'ndarray_f_ro') else 'ndarray_ro'
+        kind = cont if cont in ('ndarray', 'ndarray_f', 'ndarray_ro', 'ndarray_f_ro') else 'ndarray_ro'
         A = as_array(X, kind)
         cls.append('container:' + kind)
         from checks import c10
@@ -190,7 +194,7 @@ def oracle_call(case):
         names = ['c%d' % j for j in range(d)] if case['seed'] % 2 else list(range(d))
         df = pd.DataFrame(Z.copy(), columns=names)
         if name == 'gauss_fit':
-            kind = cont if cont in ('frame', 'ndarray', 'ndarray_ro', 'ndarray_f_ro') else 'frame'
+            kind = cont if cont in ('frame', 'ndarray', 'ndarray_f', 'ndarray_ro', 'ndarray_f_ro') else 'frame'
             arg = df if kind == 'frame' else as_array(Z, kind)
             cls.append('container:' + kind)
 
@@ -273,7 +277,7 @@ def plot_strategy():
         'fn': st.sampled_from(['scatter_2d', 'scatter_3d', 'compare_2d', 'compare_3d']),
         'n_real': st.integers(1, 30), 'n_synth': st.integers(1, 30), 'extra_cols': st.integers(0, 2), 'seed': S.SEEDS,
         'columns': st.sampled_from(['default', 'explicit', 'explicit-permuted', 'tuple', 'wrong-count']),
-        'dups': st.booleans(), 'title': st.sampled_from([None, 'a title']),
+        'dups': st.booleans(), 'title': st.sampled_from([None, 'a title']), 'index': st.sampled_from(['default', 'default', 'offset', 'shuffled', 'string', 'duplicated']),
     })
 
 
@@ -300,6 +304,17 @@ def oracle_plot(case):
         return pd.DataFrame(X, columns=names)
 
     real, synth = frame(case['n_real']), frame(case['n_synth'])
+    style = case.get('index', 'default')
+    for fr_ in (real, synth):          # frames as they come out of a split / filter / join
+        n_ = len(fr_)
+        if style == 'offset':
+            fr_.index = np.arange(n_) + 40
+        elif style == 'shuffled':
+            fr_.index = rs.permutation(n_)
+        elif style == 'string':
+            fr_.index = ['r%d' % i for i in range(n_)]
+        elif style == 'duplicated':
+            fr_.index = np.zeros(n_, dtype=int)
     mode = case['columns']
     if mode == 'default':
         cols = None
@@ -346,7 +361,7 @@ def oracle_plot(case):
             require(got[nm] == expected[nm], 'visualization.%s(columns=%r): the %r trace does not show exactly the rows of the %s frame (%d plotted, %d rows; first difference %r)'
                     % (case['fn'], cols, nm, nm.lower(), sum(got[nm].values()), sum(expected[nm].values()),
                        list((got[nm] - expected[nm]).items())[:1] or list((expected[nm] - got[nm]).items())[:1]), tag='plot-data')
-    return {'nontrivial': cols is not None, 'classes': ['fn:' + case['fn'], 'columns:' + mode]}
+    return {'nontrivial': cols is not None, 'classes': ['fn:' + case['fn'], 'columns:' + mode, 'index:' + style]}
 
 
 SUBS = [
